@@ -609,6 +609,11 @@ func c08FaultyWrapped(id string, kind int, seed int64) core.Scenario {
 func c08Scenarios(c *core.Ctx, race bool) []core.Scenario {
 	var out []core.Scenario
 	for i := 0; i < c.Pick(9, 45); i++ {
+		if race && i%3 == 2 {
+			// (the owner's close() of the wrapped channel concurrent with sends is itself a report of the race detector:
+			// this variant only runs in the normal build)
+			continue
+		}
 		out = append(out, c08FaultyWrapped(fmt.Sprintf("faulty-%d-race%v", i, race), i%3, c.Seed+int64(i)))
 	}
 	out = append(out, c08Instantiations(fmt.Sprintf("instantiations-race%v", race)))
